@@ -38,7 +38,8 @@ DecCmp(a, b) == IF a.neg /\ ~b.neg THEN (IF IsZero(a) /\ IsZero(b) THEN 0 ELSE -
 DecEq(a, b) == DecCmp(a, b) = 0
 MaxInt64 == [neg |-> FALSE, digits |-> <<9,2,2,3,3,7,2,0,3,6,8,5,4,7,7,5,8,0,7>>, exp10 |-> 0]
 MinInt64Mag == [neg |-> FALSE, digits |-> <<9,2,2,3,3,7,2,0,3,6,8,5,4,7,7,5,8,0,8>>, exp10 |-> 0]
-FitsInt64(d) == IF d.neg THEN MagCmp(d, MinInt64Mag) <= 0 ELSE MagCmp(d, MaxInt64) <= 0
+\* "a plain integer literal whose MAGNITUDE fits int64": -9223372036854775808 is therefore not covered by the int rule
+FitsInt64(d) == MagCmp(d, MaxInt64) <= 0
 
 \* ---------------------------------------------------------------- reading a number literal
 RECURSIVE DigitsFrom(_, _)
@@ -75,19 +76,20 @@ EscByte(b) == CASE b = 98 -> 8 [] b = 102 -> 12 [] b = 110 -> 10 [] b = 114 -> 1
 FFFD == <<239, 191, 189>>
 \* p just after the opening quote. Two decodings are returned: a = a lone surrogate becomes its 3-byte generalised
 \* encoding, b = a lone surrogate becomes U+FFFD (the statement fixes only pairs); they differ in nothing else.
-RECURSIVE PStrBody(_, _, _, _)
-PStrBody(x, p, a, b) ==
+\* A third reading c is NOT allowed; it is the defective "each half of a pair on its own -> two U+FFFD" and only names the locus.
+RECURSIVE PStrBody(_, _, _, _, _)
+PStrBody(x, p, a, b, c) ==
   LET ch == x[p] IN
-  IF ch = 34 THEN [a |-> a, b |-> b, p |-> p + 1]
-  ELSE IF ch # 92 THEN PStrBody(x, p + 1, Append(a, ch), Append(b, ch))
-  ELSE IF x[p + 1] # 117 THEN PStrBody(x, p + 2, Append(a, EscByte(x[p + 1])), Append(b, EscByte(x[p + 1])))
+  IF ch = 34 THEN [a |-> a, b |-> b, c |-> c, p |-> p + 1]
+  ELSE IF ch # 92 THEN PStrBody(x, p + 1, Append(a, ch), Append(b, ch), Append(c, ch))
+  ELSE IF x[p + 1] # 117 THEN PStrBody(x, p + 2, Append(a, EscByte(x[p + 1])), Append(b, EscByte(x[p + 1])), Append(c, EscByte(x[p + 1])))
   ELSE LET u == U16(x, p + 2) IN
        IF IsHigh(u) /\ At(x, p + 6) = 92 /\ At(x, p + 7) = 117 /\ IsLow(U16(x, p + 8))
        THEN LET cp == 65536 + (u - 55296) * 1024 + (U16(x, p + 8) - 56320) IN
-            PStrBody(x, p + 12, a \o Utf8(cp), b \o Utf8(cp))
-       ELSE IF IsHigh(u) \/ IsLow(u) THEN PStrBody(x, p + 6, a \o Utf8(u), b \o FFFD)
-       ELSE PStrBody(x, p + 6, a \o Utf8(u), b \o Utf8(u))
-PStr(x, p) == PStrBody(x, p + 1, <<>>, <<>>)
+            PStrBody(x, p + 12, a \o Utf8(cp), b \o Utf8(cp), c \o FFFD \o FFFD)
+       ELSE IF IsHigh(u) \/ IsLow(u) THEN PStrBody(x, p + 6, a \o Utf8(u), b \o FFFD, c \o FFFD)
+       ELSE PStrBody(x, p + 6, a \o Utf8(u), b \o Utf8(u), c \o Utf8(u))
+PStr(x, p) == PStrBody(x, p + 1, <<>>, <<>>, <<>>)
 
 \* ---------------------------------------------------------------- reading a value
 RECURSIVE PValue(_, _), PElems(_, _, _), PMembers(_, _, _, _)
@@ -97,7 +99,7 @@ PValue(x, p0) ==
   IN CASE ch = 110 -> [v |-> [t |-> "null"], p |-> p + 4]
        [] ch = 116 -> [v |-> [t |-> "bool", v |-> TRUE], p |-> p + 4]
        [] ch = 102 -> [v |-> [t |-> "bool", v |-> FALSE], p |-> p + 5]
-       [] ch = 34 -> LET s == PStr(x, p) IN [v |-> [t |-> "str", a |-> s.a, b |-> s.b], p |-> s.p]
+       [] ch = 34 -> LET s == PStr(x, p) IN [v |-> [t |-> "str", a |-> s.a, b |-> s.b, c |-> s.c], p |-> s.p]
        [] ch = 91 -> LET q == GWs(x, p + 1) IN
                      IF At(x, q) = 93 THEN [v |-> [t |-> "arr", v |-> <<>>], p |-> q + 1] ELSE PElems(x, q, <<>>)
        [] ch = 123 -> LET q == GWs(x, p + 1) IN
@@ -114,7 +116,7 @@ PMembers(x, p0, ks, vs) ==
       c == GWs(x, k.p)                 \* the colon
       e == PValue(x, c + 1)
       q == GWs(x, e.p)
-      ks2 == Append(ks, [a |-> k.a, b |-> k.b])
+      ks2 == Append(ks, [a |-> k.a, b |-> k.b, c |-> k.c])
       vs2 == Append(vs, e.v)
   IN IF At(x, q) = 44 THEN PMembers(x, q + 1, ks2, vs2)
      ELSE [v |-> [t |-> "obj", k |-> ks2, v |-> vs2], p |-> q + 1]
@@ -153,19 +155,22 @@ Matches(s, r) ==
                       /\ \A j1, j2 \in 1..Len(r.k) : r.k[j1] = r.k[j2] => j1 = j2
 \* coarse shape of the first mismatching leaf, used only to name the locus
 RECURSIVE Blame(_, _)
-NumShape(n) == <<"num", IF n.plain THEN "plain" ELSE "frac/exp",
+Top8 == [neg |-> FALSE, digits |-> <<9,2,2,3,3,7,2,0,3,6,8,5,4,7,7,5,8>>, exp10 |-> 2]     \* 9223372036854775800
+NumShape(n) == <<"num", IF n.plain THEN (IF FitsInt64(n.dec) /\ MagCmp(n.dec, Top8) >= 0 THEN "plain-int64-top8" ELSE "plain") ELSE "frac/exp",
                  IF Len(n.dec.digits) <= 15 THEN "<=15d" ELSE IF Len(n.dec.digits) <= 19 THEN "16-19d" ELSE ">19d",
                  IF IsZero(n.dec) THEN "zero" ELSE IF Len(n.dec.digits) + n.dec.exp10 > 19 THEN "mag>1e19"
                  ELSE IF Len(n.dec.digits) + n.dec.exp10 < -5 THEN "mag<1e-5" ELSE "mid">>
 Blame(s, r) ==
   CASE s.t = "num" -> NumShape(s) \o <<IF r.t \in {"int", "flt", "big"} THEN r.t ELSE "kind">>
-    [] s.t = "str" -> <<"str", IF r.t = "str" THEN "bytes" ELSE "kind">>
+    [] s.t = "str" -> <<"str", IF r.t # "str" THEN "kind" ELSE IF r.v = s.c THEN "pair-as-two-U+FFFD" ELSE "bytes">>
     [] s.t = "arr" /\ r.t = "arr" /\ Len(r.v) = Len(s.v) ->
          LET i == CHOOSE i \in 1..Len(s.v) : ~Matches(s.v[i], r.v[i]) IN Blame(s.v[i], r.v[i])
     [] s.t = "obj" /\ r.t = "obj" ->
          IF \E j \in 1..Len(r.k) : (\E i \in 1..Len(s.k) : r.k[j] = s.k[i].a \/ r.k[j] = s.k[i].b) /\ ~Matches(s.v[LastIdx(s.k, r.k[j])], r.v[j])
          THEN LET j == CHOOSE j \in 1..Len(r.k) : (\E i \in 1..Len(s.k) : r.k[j] = s.k[i].a \/ r.k[j] = s.k[i].b) /\ ~Matches(s.v[LastIdx(s.k, r.k[j])], r.v[j])
               IN Blame(s.v[LastIdx(s.k, r.k[j])], r.v[j])
-         ELSE <<"obj", "keys">>
+         ELSE <<"obj", IF /\ \A i \in 1..Len(s.k) : \E j \in 1..Len(r.k) : r.k[j] \in {s.k[i].a, s.k[i].b, s.k[i].c}
+                          /\ \A j \in 1..Len(r.k) : \E i \in 1..Len(s.k) : r.k[j] \in {s.k[i].a, s.k[i].b, s.k[i].c}
+                       THEN "key-pair-as-two-U+FFFD" ELSE "keys">>
     [] OTHER -> <<s.t, "kind/len">>
 =============================================================================
